@@ -764,6 +764,58 @@ def run_secured_fragments(params, known):
     return res
 
 
+def run_admin_record_source(params, known):
+    """The protected bundle carries an administrative record that an application attached as parsed content, leaving the
+    "payload is an administrative record" flag to the encoding layer (flags given as 0, or only report requests): what is
+    signed is what is sent - the unmodified bundle verifies at the receiver and the record is handed over."""
+    from .. import env as _env
+    _env.load_bp()
+    from bp.encoding import Bundle
+    from bp.util import BundleContainer
+    from bp.app.bpsec import SecAssociation, SecOperation
+    from .c02 import admin_payload
+    violations = []
+    kinds = set()
+    keys = []
+    count = 0
+    for (given_flags, crc) in ((0, 0), (0, 1), (B.FLAG_REQ_DELETION, 1), (B.FLAG_ADMIN, 1)):
+        count += 1
+        case = dict(flags_given_by_the_application=hex(given_flags), crc_type=crc)
+        pri = dict(flags=B.FLAG_ADMIN | given_flags, crc_type=crc, dest='dtn://node/app', src=SRC + 'app', report_to='dtn://rpt/', ts=(760000000000, 40 + count),
+                   lifetime=86400000)
+        wire = B.encode(dict(primary=pri, blocks=[dict(type=1, num=1, flags=0, crc_type=crc, data=admin_payload(1))]))
+        world = BpWorld(dict(node_id=SRC, tx_routes=[('.*', 'dtn://next/', None)]))
+        cose = world.cose()
+        cose.sym_key_store[KID] = sym_key(KEY, ['MacCreateOp', 'MacVerifyOp'], 'HMAC256')
+        cose.sec_assoc.append(SecAssociation(src_pat=re.compile(re.escape(SRC) + '.*'), dst_pat=re.compile('.*'), tgt_blk_types=[1],
+                                             templates=[SecOperation(sec_type='bib', role='source', priv_key_id=KID)]))
+        obj = Bundle(wire)                      # the record is now parsed content of the payload block
+        obj.primary.bundle_flags = given_flags  # ... and the flags are what the application said
+        world.send(BundleContainer(obj))
+        world.quiesce()
+        sent = [o for o in world.sent()]
+        keys.append('admin-record-source:%x/%d' % (given_flags, crc))
+        found = None
+        if len(sent) != 1 or world.api_errors or world.escaped:
+            found = ('source-cannot-apply-integrity-block', repr((len(sent), world.api_errors[:1], world.escaped[:1])))
+        else:
+            dec = B.decode(sent[0])
+            if not dec['primary']['flags'] & B.FLAG_ADMIN:
+                found = ('administrative-flag-missing-on-the-wire', hex(dec['primary']['flags']))
+            elif not any(b['type'] == B.T_BIB for b in dec['blocks']):
+                found = ('no-integrity-block-added', repr([b['type'] for b in dec['blocks']]))
+            else:
+                (w2, delivered, reasons) = verify(sent[0], 'right', False)
+                if not delivered:
+                    found = ('unmodified-bundle-rejected', 'reasons %r, errors %r' % (reasons, w2.api_errors[:1]))
+        if found and found[0] not in kinds:
+            kinds.add(found[0])
+            v = Violation(PROP, 'integrity', found[0], dict(), '%r: %s' % (case, found[1])).as_dict()
+            v['case'] = dict(source='mac0', protected='', altered='', alteration='administrative record source', keymode='right', with_ca=False, **case)
+            violations.append(v)
+    return dict(name=params['name'], evaluations=count, nontrivial_keys=keys, violations=violations, known=[], samples=[], verdicts={}, report_keys=['verdicts'])
+
+
 def run_key_history(params, known):
     '''One long-lived receiver; before each of three receptions of bundles protected with COSE_Mac0 its key under
     the key identifier is the right one, another one, or absent (27 histories).  Each reception is judged on its
@@ -943,6 +995,7 @@ def scenarios(tier):
     pems = make_pems()
     out.append(dict(name='mac0-two-keys', kind='enum', runner='run_two_keys', params=dict(name='mac0-two-keys'), weight=1))
     out.append(dict(name='mac0-key-history', kind='enum', runner='run_key_history', params=dict(name='mac0-key-history'), weight=1))
+    out.append(dict(name='administrative-record-source', kind='enum', runner='run_admin_record_source', params=dict(name='administrative-record-source'), weight=1))
     # the secured bundle is cut into fragments on its way: put together first, verified then (all arrival orders)
     out.append(dict(name='secured-then-fragmented', kind='enum', runner='run_secured_fragments', params=dict(name='secured-then-fragmented', prop=PROP), weight=2))
     out.append(dict(name='sign1-certificate-validity', kind='enum', runner='run_cert_validity', params=dict(name='sign1-certificate-validity', pems=pems), weight=2))
@@ -1007,6 +1060,11 @@ def evidence(tier, seed, scens, results, wall_s):
 
 def replay_case(body, verbose=False):
     case = body['case']
+    if case.get('alteration') == 'administrative record source':
+        res = run_admin_record_source(dict(name='administrative-record-source'), None)
+        for v in res['violations']:
+            print('%s: %s' % (v['kind'], v['detail'][:400]))
+        return 1 if res['violations'] else 0
     if case.get('alteration') == 'key history':
         res = run_key_history(dict(name='mac0-key-history'), None)
         for v in res['violations']:
